@@ -67,7 +67,7 @@ func (c19) Meta() core.Meta {
 		Assumptions: []string{"a source that has returned an error keeps failing (sticky)", "runs of (0,nil) reads are bounded to 3 (an endless stall makes io.ReadFull itself spin)",
 			"an error delivered together with the last byte of the final draw may be either ignored or reported (io.ReadFull semantics)",
 			"the private-key output of GenerateKey on error is not judged (statement speaks of public key and signature)"},
-		FaultKinds: []string{"short", "stall", "long-stall-read", "via-crypto/rand.Reader", "err-EOF", "err-UnexpectedEOF", "err-custom", "err-*-with-some-bytes", "err-*-with-all-bytes", "sticky-err", "nil-reader"},
+		FaultKinds: []string{"short", "stall", "long-stall-read", "via-crypto/rand.Reader", "err-EOF", "err-UnexpectedEOF", "err-custom", "err-EINTR", "err-EAGAIN-path", "err-timeout", "transient-err-*", "stall>=2^20-reads", "err-*-with-some-bytes", "err-*-with-all-bytes", "sticky-err", "nil-reader"},
 		ProbeNames: []string{"error_expected", "either_accepted", "success_expected", "rejected_prefix>=2", "solved_rejection"},
 		StepUnit:   "reader calls + library calls",
 	}
@@ -216,11 +216,20 @@ func (c19) Generate(idx int, r *core.Rand, tier string) core.Script {
 	for i := 0; i < steps; i++ {
 		switch {
 		case enErr && f.Chance(1, 6):
-			s.Program = append(s.Program, rng.Step{Kind: "err", N: f.PickInt(0, 0, 1, 7, 16, 31, 32, f.Intn(33)), Err: c19Errs[f.Intn(3)]})
+			st := rng.Step{Kind: "err", N: f.PickInt(0, 0, 1, 7, 16, 31, 32, f.Intn(33)), Err: c19Errs[f.Intn(3)]}
+			if f.Chance(1, 3) { // error values with Temporary()/Timeout() methods, as real devices return them
+				st.Err = []string{"EINTR", "EAGAIN-path", "timeout"}[f.Intn(3)]
+			}
+			st.Transient = f.Chance(1, 3) // the source carries on after the failed read
+			s.Program = append(s.Program, st)
 		case enShort && f.Chance(1, 3):
 			s.Program = append(s.Program, rng.Step{Kind: "short", N: f.PickInt(1, 2, 8, 15, 16, 17, 31, f.Range(1, 31))})
 		case enStall && f.Chance(1, 40): // no progress for a long (finite) while
-			s.Program = append(s.Program, rng.Step{Kind: "longstall", N: f.PickInt(99, 100, 101, 150, 300, 1000)})
+			n := f.PickInt(99, 100, 101, 150, 300, 1000)
+			if f.Chance(1, 8) { // a source that makes no progress for a million reads and more
+				n = f.PickInt(1<<16+1, 1<<20, 1<<20+1, 1<<21+3)
+			}
+			s.Program = append(s.Program, rng.Step{Kind: "longstall", N: n})
 		case enStall && f.Chance(1, 5):
 			s.Program = append(s.Program, rng.Step{Kind: "stall"})
 		default:
